@@ -3,6 +3,7 @@ package vg
 import (
 	"go/token"
 	"go/types"
+	"strings"
 
 	"golang.org/x/tools/go/ssa"
 )
@@ -145,6 +146,8 @@ func runC17Wildcard(c *Ctx) {
 
 func runC17(c *Ctx) {
 	p := c.P
+	defer runC17RulesAccumulate(c)
+	defer runC17NoSharedDefaults(c)
 	// clause shared with C06: every accepted binding is reachable (sibling alternatives are tried)
 	defer c.ImportRules("C06", "C06.2")
 	defer runC17Wildcard(c)
@@ -894,4 +897,89 @@ func wildcardDerived(ph *ssa.Phi) bool {
 		}
 	}
 	return anyTrue
+}
+
+// runC17RulesAccumulate: C17.6 (seed C17g).  Several rules may select the same method (an exact
+// selector and a wildcard one, or two additional bindings); each of them is a binding the
+// configuration promises to serve.  Where rule registration records 'this rule applies to this
+// method' in a map keyed by the method, the stored value extends what is already recorded under
+// that key (append to the looked-up entry) - a plain overwrite keeps only the last rule and the
+// earlier ones are dropped without an error: NewTranscoder accepts bindings it answers with 404.
+func runC17RulesAccumulate(c *Ctx) {
+	p := c.P
+	c.Rule("C17.6", "rules recorded per method accumulate; a later rule for the same method does not replace an earlier one", 1)
+	reg := p.MustFunc("(*Transcoder).registerRules")
+	mcT := types.NewPointer(p.MustNamed("methodConfig"))
+	n := 0
+	for _, fn := range SortedFuncs(p.Reach(reg)) {
+		if !p.inScope(fn) {
+			continue
+		}
+		ForEachInstr(fn, func(in ssa.Instruction) {
+			mu, ok := in.(*ssa.MapUpdate)
+			if !ok {
+				return
+			}
+			mt, isMap := mu.Map.Type().Underlying().(*types.Map)
+			if !isMap || !types.Identical(mt.Key(), mcT) {
+				return
+			}
+			if _, fresh := strip(mu.Map).(*ssa.MakeMap); !fresh {
+				return // only the local bookkeeping table of the registration
+			}
+			n++
+			acc := false
+			if call, isCall := mu.Value.(*ssa.Call); isCall && IsCallTo(call, "builtin append") && len(call.Call.Args) > 0 {
+				if lk, isLk := strip(call.Call.Args[0]).(*ssa.Lookup); isLk && lk.X == mu.Map && lk.Index == mu.Key {
+					acc = true
+				}
+			}
+			c.Check(acc, "C17.6", FuncName(fn), "rules-per-method-accumulate", mu.Pos(),
+				"the entry recorded for a method is the previous entry extended by this rule",
+				"the table of rules per method is overwritten, not extended: when two rules select the same method only the last one is registered and the earlier binding is dropped without an error - NewTranscoder accepts a configuration it then answers with 404")
+		})
+	}
+	if n == 0 {
+		c.OK("C17.6", FuncName(reg), "rules-per-method-accumulate", reg.Pos(), "rule registration keeps no per-method table (each rule is registered where it is matched)")
+	}
+}
+
+// runC17NoSharedDefaults: C17.7 (seed C17h).  Option setters write into the maps held by the
+// options value (WithCompression, WithCodec: opts.compressors[name] = ...).  Those maps are
+// created per NewTranscoder call.  A package-level map stored into such a struct field is one
+// map shared by every Transcoder of the process: a name registered for one Transcoder becomes
+// known to all others - a configuration that must be rejected ("compression algorithm x is not
+// known") is accepted, depending on what was constructed before.
+func runC17NoSharedDefaults(c *Ctx) {
+	p := c.P
+	c.Rule("C17.7", "no package-level map is aliased into configuration state (defaults are built per Transcoder)", 1)
+	bad, seen := 0, 0
+	for _, fn := range p.Funcs {
+		if !p.inScope(fn) || N(fn) == "init" {
+			continue
+		}
+		ForEachInstr(fn, func(in ssa.Instruction) {
+			st, ok := in.(*ssa.Store)
+			if !ok {
+				return
+			}
+			if _, isFA := st.Addr.(*ssa.FieldAddr); !isFA {
+				return
+			}
+			if _, isMap := st.Val.Type().Underlying().(*types.Map); !isMap {
+				return
+			}
+			seen++
+			for _, l := range Origins(st.Val) {
+				if l.Kind == "global" || (l.Kind == "load" && strings.HasPrefix(l.Path, "g:")) {
+					bad++
+					c.Bad("C17.7", FuncName(fn), "global-map-into-field", st.Pos(),
+						"a package-level map is stored into a struct field: it becomes shared, mutable configuration of every Transcoder in the process (option setters write into these maps), so what one NewTranscoder call registers changes which configurations another one accepts")
+				}
+			}
+		})
+	}
+	if bad == 0 {
+		c.OK("C17.7", "package", "global-map-into-field", token.NoPos, itoa(seen)+" stores of maps into struct fields examined: none aliases a package-level map")
+	}
 }
